@@ -57,6 +57,7 @@ def scan(ctx, envs, run, families, t3, nontrivial, what_t3, max_report=6):
             if sid not in reported_shapes and len(reported_shapes) < max_report:
                 reported_shapes.add(sid)
                 sid_, form, hx, ia, ib, fields = rtcat.split_line(a)
+                fields["_hex"] = hx
                 why = t3(sid, fields, x, aa)
                 rep = dict(describe(envs, sid), form=form, input_hex=hx, a=ia, b=ib, impl=a, model=b, oracle=aa)
                 if why:
@@ -67,6 +68,7 @@ def scan(ctx, envs, run, families, t3, nontrivial, what_t3, max_report=6):
             continue
         # fast path: decide T3 on the raw line where possible
         sid_, form, hx, ia, ib, fields = rtcat.split_line(a)
+        fields["_hex"] = hx
         why = t3(sid, fields, x, aa)
         if why:
             t3_bad += 1
